@@ -319,7 +319,7 @@ def run(ctx):
     total = 0
     by_rule = {}
     lib = None
-    for label, sc, local in scopes(ctx):
+    for label, sc, local in scopes(ctx, inline=False):
         lib_crate = [c for c in sc.crates if c.name == "deserr"][0]
         panicky = local_panicky_fns(lib_crate)
         skels = {}
@@ -388,7 +388,7 @@ def run(ctx):
     res.floor("panic-capable sites found by the census", total, 19)
     if not getattr(ctx, "degraded", None):
         res.floor("sites discharged by C12.FIELDSTATE (derived code)", by_rule.get("C12.FIELDSTATE", 0), 100)
-    res.floor("sites discharged by C12.ARITY/TUPLEOPT (tuples)", by_rule.get("C12.ARITY", 0) + by_rule.get("C12.TUPLEOPT", 0), 10)
+    res.floor("sites discharged by C12.ARITY/TUPLEOPT (tuples)", by_rule.get("C12.ARITY", 0) + by_rule.get("C12.TUPLEOPT", 0), 5)
     res.trusted_base = ["rustc nightly MIR construction (overflow/bounds checks appear as Assert terminators)", "mirfacts extractor", "rules/p_c12.py",
                         "curated table of panicking std APIs (PANICKY); other std functions are assumed total",
                         "serde_json: a Number is one of u64/i64/f64 without arbitrary_precision; to_string of a Value cannot fail"]
